@@ -179,6 +179,27 @@ def rule_asm(ctx):
     ok = "self.result = next(self.reader)" in src and "self.reader = None" in src and "self.outReadEvent(readBuffer)" in src
     ctx.check(R, ok, f.qname, "_doReadOp delivers the data and clears the slot", "_doReadOp must deliver the read "
               "data through outReadEvent and clear the reader", f.loc())
+    # the machine gets no further read event for plaintext already decrypted and buffered: one read
+    # must be able to deliver a whole maximum-size record, independent of any negotiated/outgoing size
+    from ..condeval import ev, Unknown
+    nreads = 0
+    for m in cls.methods.values():
+        for c in calls_in(m.node):
+            if call_name(c) != "readAsync":
+                continue
+            nreads += 1
+            arg = c.args[0] if c.args else next((k.value for k in c.keywords if k.arg == "max"), None)
+            try:
+                val = None if arg is None else ev(arg, {})
+                ok = val is None or val >= 2 ** 14
+                why = "asks for %r bytes" % val
+            except (Unknown, TypeError):
+                ok, why = False, "asks for `%s` bytes, a run-time quantity" % norm(arg)
+            ctx.check(R, ok, m.qname, "readAsync request covers a whole maximum-size record",
+                      "AsyncStateMachine %s: a record larger than the request leaves its tail buffered with no "
+                      "socket event to deliver it (the result then depends on how the peer's writes were "
+                      "chunked into records)" % why, m.loc(c))
+    ctx.require(nreads >= 1, "C14.ASM: readAsync call of AsyncStateMachine not found")
     for nm, val in (("wantsReadEvent", 0), ("wantsWriteEvent", 1)):
         f = cls.methods[nm]
         ret = [n for n in own_nodes(f.node) if isinstance(n, ast.Return) and isinstance(n.value, ast.Compare)]
